@@ -202,9 +202,10 @@ func (p *StreamPool) getConnection(k key, end bool, ts time.Time, tcp *layers.TC
 	conn, half, rev = p.newConnection(k, s, ts)
 	conn2, half2, rev2 := p.getHalf(k)
 	if conn2 != nil {
-		if conn2.key != k {
-			panic("FIXME: other dir added in the meantime...")
-		}
+		// Another assembler created the connection while the pool was unlocked,
+		// possibly from a packet of the other direction (conn2.key is then the
+		// reverse of k).  Use that connection: getHalf has already put the two
+		// half-connections in the order that matches k.
 		// FIXME: delete s ?
 		return conn2, half2, rev2
 	}
